@@ -53,6 +53,9 @@ PROBES = [
     "parquet_groups_aligned_with_chunks",
     "patch_column_and_centres_given",
     "centres_from_another_catalog",
+    "overwrite_of_a_restored_catalog",
+    "parquet_nonuniform_row_groups",
+    "unsigned_integer_column",
 ]
 REAL_VS_STUB = dict(
     real="yaw readers/DataChunk/split/CatalogWriter/PatchWriter/load_patches, numpy, pandas, astropy.io.fits, h5py, pyarrow, tmpfs",
@@ -89,7 +92,7 @@ def gen_case(prng: Prng, tier: str) -> dict:
             region=region,
             has_w=prng.chance(1, 2),
             has_z=prng.chance(1, 2),
-            w_dtype=prng.choice(["f8", "f8", "f4", "i4"]),
+            w_dtype=prng.choice(["f8", "f8", "f4", "i4", "u2"]),
             z_dtype=prng.choice(["f8", "f8", "f4"]),
             coord_dtype=prng.choice(["f8", "f8", "f4", "i4"]),
             degrees=prng.chance(3, 4) if source != "random" else True,
@@ -97,7 +100,7 @@ def gen_case(prng: Prng, tier: str) -> dict:
         source=source,
         patch=dict(
             mode=mode, k=k, center_seed=prng.below(1 << 20),
-            pid_dtype=prng.choice(["i2", "i4", "i8"]), pid_scramble=prng.chance(1, 3),
+            pid_dtype=prng.choice(["i2", "i4", "i8", "u2"]), pid_scramble=prng.chance(1, 3),
         ),
         chunksize=chunksize,
         buffersize=prng.choice([None, None, -1, 1, 7, 65536]),
@@ -115,6 +118,13 @@ def gen_case(prng: Prng, tier: str) -> dict:
     if source == "parquet" and chunksize is not None and prng.chance(1, 2):
         # row-group boundaries that coincide with chunk boundaries
         case["pq_rowgroup"] = prng.choice([chunksize, max(1, chunksize // 2), 2 * chunksize, 3 * chunksize])
+    elif source == "parquet" and chunksize is not None and prng.chance(1, 2):
+        # non-uniform row groups (merged tiles): a large first group, smaller ones after it
+        h = max(1, chunksize // 2)
+        case["pq_rowgroup"] = [prng.choice([chunksize, 2 * chunksize, chunksize + 1]), h, h, max(1, h - 1), h]
+    if prng.chance(1, 6):
+        # the target holds an older catalog that this process has already restored and read
+        case["prior"], case["overwrite"] = "catalog_reopened", True
     return case
 
 
@@ -167,6 +177,15 @@ def shrinks(case: dict):
         c = copy.deepcopy(case)
         c["patch"].pop("extra_pid_column")
         yield c
+    if case.get("prior") == "catalog_reopened":
+        c = copy.deepcopy(case)
+        c.pop("prior")
+        c["overwrite"] = False
+        yield c
+    if case.get("pq_rowgroup") is not None:
+        c = copy.deepcopy(case)
+        c.pop("pq_rowgroup")
+        yield c
     for key, simple in (("buffersize", None), ("progress", False), ("use_none", False), ("cores_extra", 0)):
         if case.get(key) != simple:
             c = copy.deepcopy(case)
@@ -210,6 +229,12 @@ def evaluate(case: dict, o: dict) -> tuple[dict | None, str | None, dict]:
         probes["patch_column_and_centres_given"] = 1
     if p.get("centers_from_catalog"):
         probes["centres_from_another_catalog"] = 1
+    if case.get("prior") == "catalog_reopened":
+        probes["overwrite_of_a_restored_catalog"] = 1
+    if isinstance(case.get("pq_rowgroup"), list):
+        probes["parquet_nonuniform_row_groups"] = 1
+    if (d.get("has_w") and d.get("w_dtype") == "u2") or (p["mode"] == "divide" and p.get("pid_dtype") == "u2"):
+        probes["unsigned_integer_column"] = 1
     if case["workers"] == 1:
         probes["sequential_path"] = 1
     if d.get("coord_dtype", "f8") != "f8" and case["source"] != "random":
